@@ -89,10 +89,10 @@ def source_jobs(tier):
     for mod, tag, every, cap in plan:
         k = n = 0
         for j in mod.jobs('quick'):
+            if isinstance(j, tuple) or j.get('descs') or j.get('named'):
+                continue
             k += 1
             if k % every:
-                continue
-            if isinstance(j, tuple) or j.get('descs') or j.get('named'):
                 continue
             n += 1
             if n > cap * (1 if tier == 'quick' else 4):
